@@ -25,6 +25,11 @@ def models(tier):
     m1r = monitors.ScenarioModel("inbound-ready-handler-raises", raising,
                                  [("m", 0, n) for n in ("req", "dwr", "req_missing", "ans_unknown", "untyped")] + [("tick", 2)],
                                  [monitors.AnswerMonitor], max_socks=1, prelude=[("accept",), ("m", 0, "cer_p0")])
+    norc = copy.deepcopy(BASE)
+    norc["apps"][0]["behaviour"] = "answer_norc"
+    m1n = monitors.ScenarioModel("inbound-ready-handler-answers-without-result-code", norc,
+                                 [("m", 0, n) for n in ("req", "dwr", "req_missing", "untyped", "req_big")] + [("tick", 2), ("b", 0, "req", "req")],
+                                 [monitors.AnswerMonitor], max_socks=1, prelude=[("accept",), ("m", 0, "cer_p0")])
     unid = [("m", 0, n) for n in ("cer_p0", "cer_unknown", "cer_nocommon", "cer_nohost", "cer_badip", "dwr", "dwa", "dpr", "dpa", "req", "ans_unknown",
                                   "cea_unsolicited")] + [("tick", 1), ("b", 0, "cer_unknown", "req"), ("b", 0, "cer_p0", "req"), ("b", 0, "cer_nocommon", "dwr")]
     m2 = monitors.ScenarioModel("inbound-unidentified", BASE, unid, [monitors.AnswerMonitor], max_socks=1, prelude=[("accept",)])
@@ -39,7 +44,7 @@ def models(tier):
     two += [("ans", 0), ("ans", 1), ("ans", 2), ("tick", 2)]
     m4 = monitors.ScenarioModel("two-ready-connections", BASE, two, [monitors.AnswerMonitor], max_socks=2,
                                 prelude=[("accept",), ("m", 0, "cer_p0"), ("accept",), ("m", 1, "cer_p1")])
-    return [m1, m1r, m2, m3, m4]
+    return [m1, m1r, m1n, m2, m3, m4]
 
 
 def run(tier):
